@@ -488,6 +488,30 @@ def run(ctx):
     for i in ctx.coq_cases('c06_random', PRE, cases, descr='random integer PSD vectors, random paths (length <= %d), vs run_path' % (maxlen + 2)):
         ctx.corr_disagreement('sides_setter(random)', i, meta[i])
 
+    # ---------------- object API on LARGE grids and many sampling rates (implementation vs the frequency-matching oracle only):
+    # every grid on which the axis arithmetic is inexact in binary64 (the reported Nyquist frequency (NFFT/2)*(sampling/NFFT) differs from
+    # sampling/2, or df*NFFT from sampling) -- a conversion that consults frequencies() instead of the lengths goes wrong exactly there --
+    # plus a random sample of the other grids
+    big_s = [1.0, 2.0, 1024.0, 1000.0, 8000.0, 44100.0, 0.1, 1.0 / 3.0, 1e-3, 1e6]
+    top = ctx.q(512, 2048)
+    sens = [(n, sp) for sp in big_s for n in range(nmax + 1, top + 1)
+            if (n // 2) * (sp / n) != sp / 2 * (1 if n % 2 == 0 else (n - 1) / n) or (sp / n) * n != sp]
+    sens = [sens[int(i)] for i in rng.choice(len(sens), size=min(len(sens), ctx.q(160, 1500)), replace=False)] if sens else []
+    rand = [(int(rng.integers(nmax + 1, top + 1)), float(rng.choice(big_s))) for _ in range(ctx.q(60, 400))]
+    for it, (nfft, sampling) in enumerate(sens + rand):
+        cplx = bool(it % 3 == 2)
+        L = nfft if cplx else onesided_len(nfft)
+        v = rng.integers(0, 64, size=L).astype(float)
+        pool = SIDES[1:] if cplx else SIDES
+        path = [pool[int(t)] for t in rng.integers(0, len(pool), size=int(rng.integers(1, 3)))]
+        cls = classes[it % 2]
+        bad, fin = check_object(cplx, nfft, v, path, cls, sampling)
+        report(bad, {'site': 'object', 'cls': cls, 'cplx': cplx, 'nfft': nfft, 'sampling': sampling, 'psd': vlib.hexv(v), 'path': path})
+        ctx.count('object-large/%s/%s' % ('complex' if cplx else 'real', 'rounding-sensitive grid' if it < len(sens) else 'random grid'))
+        ctx.case(('object-large', cplx, nfft, sampling, v.tobytes(), tuple(path)), nontrivial=True,
+                 sample={'NFFT': nfft, 'sampling': sampling, 'datatype': 'complex' if cplx else 'real', 'path': path} if it % 40 == 0 else None)
+    _ORACLES.clear()
+
     # ---------------- tools helpers: all basis vectors of every length
     cases = []; meta = []
     for h, name in enumerate(HELPERS):
